@@ -302,6 +302,26 @@ fn gen(rng: &mut Rng, tier: &str) -> Vec<(String, Value)> {
         let cfg = if r.chance(1, 2) { random_cfg(&mut r) } else { dflt.clone() };
         cases.push(case(class, &s.spec, &cfg, steps));
     }
+    // (f2) histories of trust anchor certificates: what the first run stores (good / wrong key / expired / bad
+    //      signature / garbage) is what a later run falls back to when the download is missing or garbage
+    {
+        let firsts: [Option<Fault>; 5] = [None, Some(Fault::WrongKey), Some(Fault::Expired), Some(Fault::BadSignature), Some(Fault::Garbage)];
+        for (fi, first) in firsts.iter().enumerate() {
+            for second in [Some(Fault::Missing), Some(Fault::Garbage), None] {
+                let mut r = rng.fork();
+                let mut s = loop { let s = make_world(&mut r, 1, 1, 2, 2); if aspa_customers_unique(&s.spec) { break s } };
+                let good = s.spec.tals[0].uris[0].certs[0].clone();
+                let with = |f: &Option<Fault>| -> Option<TaCertSpec> {
+                    let mut c = good.clone();
+                    match f { None => c, Some(Fault::Missing) => None, Some(f) => { if let Some(c) = c.as_mut() { c.faults.push(*f); } c } }
+                };
+                s.spec.tals[0].uris[0].certs = vec![with(first), with(&second), with(&None)];
+                if !compatible(&s.spec) { continue }
+                let steps: &[usize] = if fi % 2 == 0 { &[0, 1] } else { &[0, 1, 2] };
+                cases.push(case("history.ta-steps", &s.spec, &dflt, steps));
+            }
+        }
+    }
     // (g) structured random: bigger trees, 0-3 random faults
     let nrand = if thorough { 800 } else { 60 };
     for i in 0..nrand {
